@@ -14,7 +14,8 @@
          encode_file (decode_file (encode_file dom)) = encode_file (bnorm_dom dom)   [bin_resave]   closed case of BinRoundTrip's
          [unknown_props_roundtrip] (properties unknown to the database, simple column types, any compressor under frame_ok),
          via the generic [bin_resave_generic] (any decoded forest described by same_forest + per-instance property lists).
-         The fixed point after the first save is NOT proved as a theorem for the binary format (see the end of the file).
+         encode_file (decode_file (encode_file out)) = encode_file out for out = decode_file (encode_file dom)   [bin_resave_fixed_point]
+         (round 2, sections (O)-(Q) at the end of the file).
    Method: the writer is run on two DOMs of different shape that show the same forest under a renaming of the referents
    ([serialize_instance_sim], reusing the per-value simulation of XmlDeterminism; [encode_chunks_shape] + BinRename for the
    binary format); the fuel the entry points pass is shown sufficient on both sides ([serialize_instance_fuel_ordered],
@@ -937,11 +938,11 @@ Section BinResave.
     destruct (snd kv); try contradiction. exact Hx.
   Qed.
 
-  Theorem bin_resave_generic : encode_file d ep cmp out (children_of out 0) = encode_file d ep cmp nd roots.
+  Theorem bin_resave_generic_chunks : encode_chunks d ep out (children_of out 0) = encode_chunks d ep nd roots.
   Proof.
     assert (Hroots_out : children_of out 0 = List.map L roots) by (destruct Hsf as (_ & _ & _ & H & _); exact H).
     (* un-relabel the decoded DOM *)
-    rewrite <- (bin_encode_file_rename psi d ep cmp out (children_of out 0) Hdb rs_psi_0).
+    rewrite <- (bin_encode_chunks_rename psi d ep out (children_of out 0) Hdb rs_psi_0).
     2:{ intros a b Ha Hb. apply rs_psi_inj.
         - unfold bin_dom_refs in Ha. destruct Ha as [<-|Ha]; [now left|]. apply in_app_or in Ha. destruct Ha as [Ha|Ha].
           + right. rewrite Hroots_out in Ha. apply in_map_iff in Ha. destruct Ha as (r & <- & Hr). apply in_map. now apply rs_roots_W.
@@ -952,7 +953,7 @@ Section BinResave.
     assert (Er : List.map psi (children_of out 0) = roots).
     { rewrite Hroots_out, map_map. rewrite <- (List.map_id roots) at 2. apply map_ext_in. intros r Hr. apply rs_psi_L. now apply rs_roots_W. }
     rewrite Er. symmetry. unfold roots.
-    apply encode_file_shape.
+    apply encode_chunks_shape.
     - rewrite Forall_forall in *. intros t Ht. apply (agrees_ext (children_of dom)); [|apply Hag, Ht].
       intros r Hr. symmetry. apply Hnd_kids. apply in_flat_map. exists t. split; assumption.
     - exact HndW.
@@ -975,6 +976,9 @@ Section BinResave.
     - rewrite BinKnownProps.sizes_refs. unfold rename_dom. rewrite map_length. destruct Hsf as (Hperm & _).
       rewrite <- (map_length i_ref out), (Permutation_length Hperm), map_length. fold W. lia.
   Qed.
+
+  Theorem bin_resave_generic : encode_file d ep cmp out (children_of out 0) = encode_file d ep cmp nd roots.
+  Proof. unfold encode_file. now rewrite bin_resave_generic_chunks. Qed.
 End BinResave.
 Print Assumptions bin_resave_generic.
 
@@ -1026,7 +1030,7 @@ Proof. intros Hs Hin. destruct Hs; apply in_map_iff in Hin; destruct Hin as (x &
 Lemma find_inst_bnorm st roots dom r : find_inst (bnorm_dom st roots dom) r = option_map (bnorm_inst st roots) (find_inst dom r).
 Proof. induction dom as [|i dom IH]; [reflexivity|]. cbn [bnorm_dom List.map find_inst bnorm_inst i_ref]. destruct (i_ref i =? r); [reflexivity|exact IH]. Qed.
 
-Theorem bin_resave d ep cmp dom ts b p st :
+Theorem bin_resave_chunks d ep cmp dom ts b p st :
   BinRoundTrip.input_ok dom ts -> names_ok dom -> unknown_props d dom -> ep_order ep [] = [] ->
   encode_file d ep cmp dom (List.map root ts) = Ok b ->
   add_instances d ep dom (List.map root ts) = Ok st ->
@@ -1037,7 +1041,7 @@ Theorem bin_resave d ep cmp dom ts b p st :
   db_defaults_null d = true ->
   exists out,
     decode_file d p b = Ok out /\ BinRoundTrip.same_forest dom ts (lbl st) out /\
-    encode_file d ep cmp out (children_of out 0) = encode_file d ep cmp (bnorm_dom st (List.map root ts) dom) (List.map root ts).
+    encode_chunks d ep out (children_of out 0) = encode_chunks d ep (bnorm_dom st (List.map root ts) dom) (List.map root ts).
 Proof.
   intros Hin Hnames Hun Hord Hf Hst Hlim Hs Hss Hsimple Hdb.
   destruct (unknown_props_roundtrip d ep cmp dom ts b p st Hin Hnames Hun Hord Hf Hst Hlim Hs Hss Hsimple) as (out & Hdec & Hsf & Hinst).
@@ -1078,7 +1082,7 @@ Proof.
     - apply inW_true, HWrel in E. replace (existsb (N.eqb x) (ss_relevant st)) with true; [reflexivity|]. symmetry. now apply inW_true.
     - apply inW_false in E. replace (existsb (N.eqb x) (ss_relevant st)) with false; [reflexivity|]. symmetry. apply inW_false.
       intro H. apply E, HWrel, H. }
-  apply (bin_resave_generic d ep cmp dom ts (lbl st) out (bnorm_dom st (List.map root ts) dom)
+  apply (bin_resave_generic_chunks d ep dom ts (lbl st) out (bnorm_dom st (List.map root ts) dom)
            (fun r => bnorm_props st (src dom r)) Hnd_dom Hag HndW H0W Hsf).
   - (* the decoded instances *)
     intros r Hr. fold W in Hr. destruct (Hentry r Hr) as (ti & k & Hct & Hti & Hk).
@@ -1123,6 +1127,24 @@ Proof.
     intros r Hr. fold W in Hr. pose proof (Hfound r Hr) as Hne. destruct (find_inst dom r) as [i|] eqn:Ef; [|contradiction].
     destruct (rs_find_inst_some _ _ _ Ef) as [Hi <-]. now apply in_map.
   - exact Hdb.
+Qed.
+
+Theorem bin_resave d ep cmp dom ts b p st :
+  BinRoundTrip.input_ok dom ts -> names_ok dom -> unknown_props d dom -> ep_order ep [] = [] ->
+  encode_file d ep cmp dom (List.map root ts) = Ok b ->
+  add_instances d ep dom (List.map root ts) = Ok st ->
+  dp_lim p = None ->
+  (forall e, encode_chunks d ep dom (List.map root ts) = Ok e -> frame_ok p cmp e) ->
+  sstr_ok st ->
+  (forall x, In x (cols (ss_types st)) -> fst (snd x) <> NAME -> simple_col (pi_type (snd (snd x))) (col_values ep dom x)) ->
+  db_defaults_null d = true ->
+  exists out,
+    decode_file d p b = Ok out /\ BinRoundTrip.same_forest dom ts (lbl st) out /\
+    encode_file d ep cmp out (children_of out 0) = encode_file d ep cmp (bnorm_dom st (List.map root ts) dom) (List.map root ts).
+Proof.
+  intros H1 H2 H3 H4 H5 H6 H7 H8 H9 H10 H11.
+  destruct (bin_resave_chunks d ep cmp dom ts b p st H1 H2 H3 H4 H5 H6 H7 H8 H9 H10 H11) as (out & Hd & Hsf & E).
+  exists out. split; [exact Hd|]. split; [exact Hsf|]. unfold encode_file. now rewrite E.
 Qed.
 Print Assumptions bin_resave.
 
@@ -1224,8 +1246,658 @@ Proof. vm_compute. split; [reflexivity|split; [reflexivity|split; [discriminate|
          bnorm_dom, bin_resave encode_file (decode_file (encode_file dom)) = encode_file (bnorm_dom dom), closed case
                                (properties unknown to the database, simple column types), any compressor under frame_ok
          examples: bin_resave_sample, bin_resave_chain_example
-   NOT PROVED (bin_resave_fixed_point): encode_file (decode_file (encode_file out)) = encode_file out for out = the decoded DOM, as a
+   [round 1; now proved, see (Q) at the end] NOT PROVED (bin_resave_fixed_point): encode_file (decode_file (encode_file out)) = encode_file out for out = the decoded DOM, as a
    theorem.  Missing: that [out] satisfies the hypotheses of [bin_resave] again (unknown_props, simple_col for the columns of the
    SECOND class table, sstr_ok, frame_ok of the second chunk list) and that [bnorm_dom] of a decoded DOM is the DOM itself up to the
    listing order of each property table (then BinTypeInfoFacts.encode_file_props_perm_iff closes it).  Computed instance:
    [bin_resave_chain_example] (third file = second file, second load = first load). *)
+
+(* ######################################################################################################################## *)
+(* ROUND 2: the binary fixed point                                                                                           *)
+(* ######################################################################################################################## *)
+
+From RbxVerif Require Import BinColumnsFacts.
+
+(* ================================================================= (O) the class table of a DOM whose properties the database does not know *)
+(* (the covering half is CrossFormatFile's [enc_cols_cover], re-proved here together with the converse)
+   every property set on a written instance has a column in the table of its class, and every column other than Name stems from a
+   property set on a written instance of the class, whose value type gives the column its wire type *)
+Definition vis_ok (ti : type_info) : Prop := forall k, In k (ti_visited ti) -> exists pi, In (k, pi) (ti_props ti).
+
+Lemma cti_prop_tbl d class ss ti pv ss' ti' :
+  find_desc_bin d (string_of_bytes class) (string_of_bytes (fst pv)) = Ok None ->
+  cti_prop d class (ss, ti) pv = Ok (ss', ti') -> vis_ok ti ->
+  vis_ok ti' /\ (forall kp, In kp (ti_props ti) -> In kp (ti_props ti')) /\ (exists pi, In (fst pv, pi) (ti_props ti')) /\
+  (forall k pi, In (k, pi) (ti_props ti') -> In (k, pi) (ti_props ti) \/ (k = fst pv /\ from_rbx_type (vtype (snd pv)) = Some (pi_type pi))) /\
+  (keys_sorted (ti_props ti) -> keys_sorted (ti_props ti')).
+Proof.
+  destruct pv as [pname pvalue]. cbn [fst snd]. intros Hdb H Hv. unfold cti_prop in H.
+  destruct (bmem pname (ti_visited ti)) eqn:Ev.
+  { injection H as _ <-. split; [exact Hv|]. split; [auto|]. split; [apply Hv; now apply bmem_In|auto]. }
+  unfold resolve_prop in H. rewrite Hdb in H. cbn [rbind] in H.
+  cbn [ti_props ti_class ti_id ti_service ti_instances ti_visited] in H.
+  match type of H with rbind ?X _ = _ => destruct X as [[ss1 ti1]| | |] eqn:E1 end; cbn [rbind] in H; try discriminate.
+  rewrite bytes_eqb_refl in H. injection H as _ <-.
+  destruct (bfind pname (ti_props ti)) as [pi0|] eqn:Ef.
+  - injection E1 as _ <-. unfold vis_ok. cbn [ti_props ti_visited]. split; [|split; [|split; [|split]]].
+    + intros k [<-|Hk]; [exists pi0; now apply bfind_in|now apply Hv].
+    + auto.
+    + exists pi0. now apply bfind_in.
+    + auto.
+    + auto.
+  - match type of E1 with rbind ?X _ = _ => destruct X as [dbdef| | |] end; cbn [rbind] in E1; try discriminate.
+    match type of E1 with match ?X with _ => _ end = _ => destruct X as [dv|] end; [|discriminate].
+    destruct (from_rbx_type (vtype pvalue)) as [ser_type|] eqn:Et; [|discriminate].
+    injection E1 as _ <-. unfold vis_ok. cbn [ti_props ti_visited]. split; [|split; [|split; [|split]]].
+    + intros k [<-|Hk]; [eexists; apply in_binsert; left; reflexivity|]. destruct (Hv k Hk) as (pi & Hpi). exists pi. apply in_binsert. now right.
+    + intros kp Hk. apply in_binsert. now right.
+    + eexists. apply in_binsert. left. reflexivity.
+    + intros k pi Hk. apply in_binsert in Hk. destruct Hk as [[= -> ->]|Hk]; [right; split; [reflexivity|reflexivity]|now left].
+    + intro Hs. apply binsert_sorted; [exact Hs|exact Ef].
+Qed.
+
+Lemma cti_fold_tbl d class l : forall ss ti ss' ti',
+  (forall pv, In pv l -> find_desc_bin d (string_of_bytes class) (string_of_bytes (fst pv)) = Ok None) ->
+  fold_res (cti_prop d class) (ss, ti) l = Ok (ss', ti') -> vis_ok ti ->
+  vis_ok ti' /\ (forall kp, In kp (ti_props ti) -> In kp (ti_props ti')) /\
+  (forall pv, In pv l -> exists pi, In (fst pv, pi) (ti_props ti')) /\
+  (forall k pi, In (k, pi) (ti_props ti') -> In (k, pi) (ti_props ti) \/
+                  exists pv, In pv l /\ k = fst pv /\ from_rbx_type (vtype (snd pv)) = Some (pi_type pi)) /\
+  (keys_sorted (ti_props ti) -> keys_sorted (ti_props ti')).
+Proof.
+  induction l as [|pv l IH]; intros ss ti ss' ti' Hl; cbn [fold_res].
+  { intros [= _ <-] Hv. split; [exact Hv|]. split; [auto|]. split; [intros pv []|auto]. }
+  destruct (cti_prop d class (ss, ti) pv) as [[ss1 ti1]| | |] eqn:E; cbn [rbind]; try discriminate.
+  intros H Hv. destruct (cti_prop_tbl d class ss ti pv ss1 ti1 (Hl pv (or_introl eq_refl)) E Hv) as (Hv1 & Hm1 & Hc1 & Ho1 & Hs1).
+  destruct (IH ss1 ti1 ss' ti' (fun pv' Hin => Hl pv' (or_intror Hin)) H Hv1) as (Hv' & Hm' & Hc' & Ho' & Hs').
+  split; [exact Hv'|]. split; [auto|]. split; [|split; [|auto]].
+  - intros pv' [<-|Hin]; [|now apply Hc']. destruct Hc1 as (pi1 & Hk1). exists pi1. now apply Hm'.
+  - intros k pi Hk. destruct (Ho' k pi Hk) as [Hk1|(pv' & Hin & E1 & E2)].
+    + destruct (Ho1 k pi Hk1) as [Hk0|[E1 E2]]; [now left|right]. exists pv. split; [now left|split; assumption].
+    + right. exists pv'. split; [now right|split; assumption].
+Qed.
+
+Definition tbl_inv (dom : cdom) (st : ser_state) : Prop :=
+  (forall c ti, In (c, ti) (ss_types st) -> vis_ok ti) /\
+  (forall r i k v ti, In r (ss_relevant st) -> find_inst dom r = Some i -> In (k, v) (i_props i) ->
+     In (i_class i, ti) (ss_types st) -> exists pi, In (k, pi) (ti_props ti)) /\
+  (forall c ti k pi, In (c, ti) (ss_types st) -> In (k, pi) (ti_props ti) ->
+     k = NAME \/ exists r i v, In r (ss_relevant st) /\ find_inst dom r = Some i /\ i_class i = c /\ In (k, v) (i_props i) /\
+                               from_rbx_type (vtype v) = Some (pi_type pi)) /\
+  (forall c ti, In (c, ti) (ss_types st) -> keys_sorted (ti_props ti)).
+
+Lemma collect_tbl d dom st r inst st' :
+  unknown_props d dom -> find_inst dom r = Some inst -> types_inv dom st -> tbl_inv dom st ->
+  collect_type_info d (mkSS (ss_relevant st ++ [r]) (ss_types st) (ss_next_id st) (ss_sstr st)) inst = Ok st' ->
+  tbl_inv dom st'.
+Proof.
+  intros Hun Hfi Hinv (Hvis & Hcov & Hor & Hsrt) H. pose proof (sorted_NoDup _ (inv_sorted _ _ Hinv)) as Hndk.
+  destruct (find_inst_some _ _ _ Hfi) as [Hind _].
+  assert (Hl : forall pv, In pv (i_props inst) -> find_desc_bin d (string_of_bytes (i_class inst)) (string_of_bytes (fst pv)) = Ok None).
+  { intros [pname v] Hin. cbn [fst]. exact (proj1 (Hun inst pname v Hind Hin)). }
+  assert (G : forall types0 ti0 next ss2 ti2,
+            NoDup (List.map fst types0) -> bfind (i_class inst) types0 = Some ti0 -> vis_ok ti0 ->
+            (forall c ti, In (c, ti) types0 -> (c, ti) = (i_class inst, ti0) \/ In (c, ti) (ss_types st)) ->
+            (forall r' i' k v, In r' (ss_relevant st) -> find_inst dom r' = Some i' -> In (k, v) (i_props i') -> i_class i' = i_class inst ->
+                               exists pi, In (k, pi) (ti_props ti0)) ->
+            (forall k pi, In (k, pi) (ti_props ti0) ->
+               k = NAME \/ exists r' i' v, In r' (ss_relevant st) /\ find_inst dom r' = Some i' /\ i_class i' = i_class inst /\ In (k, v) (i_props i') /\
+                                           from_rbx_type (vtype v) = Some (pi_type pi)) ->
+            keys_sorted (ti_props ti0) -> (forall c ti, In (c, ti) types0 -> keys_sorted (ti_props ti)) ->
+            fold_res (cti_prop d (i_class inst))
+              (ss_sstr st, mkTI (ti_id ti0) (ti_service ti0) (ti_instances ti0 ++ [i_ref inst]) (ti_props ti0) (ti_class ti0) (ti_visited ti0))
+              (i_props inst) = Ok (ss2, ti2) ->
+            tbl_inv dom (mkSS (ss_relevant st ++ [r]) (bset (i_class inst) ti2 types0) next ss2)).
+  { intros types0 ti0 next ss2 ti2 Hnd0 Hf0 Hv0 Hold Hcov0 Hor0 Hs0 Hsall Ef.
+    destruct (cti_fold_tbl d (i_class inst) (i_props inst) _ _ _ _ Hl Ef) as (Hv2 & Hm2 & Hc2 & Ho2 & Hs2); [exact Hv0|].
+    cbn [ti_props] in Hm2, Ho2, Hs2.
+    assert (Hnd2 : NoDup (List.map fst (bset (i_class inst) ti2 types0))) by (now rewrite bset_keys).
+    assert (Hin2 : In (i_class inst, ti2) (bset (i_class inst) ti2 types0)) by (eapply in_bset_same; eauto).
+    split; [|split; [|split]]; cbn [ss_types ss_relevant].
+    4:{ intros c ti Hin. apply (in_bset_cases _ _ _ _ Hf0) in Hin. destruct Hin as [[-> ->]|Hin]; [now apply Hs2|now apply (Hsall c ti)]. }
+    - intros c ti Hin. apply (in_bset_cases _ _ _ _ Hf0) in Hin. destruct Hin as [[-> ->]|Hin]; [exact Hv2|].
+      destruct (Hold c ti Hin) as [[= -> ->]|Hin']; [exact Hv0|now apply (Hvis c ti)].
+    - intros r' i' k v ti Hr' Hf' Hkv Hct.
+      destruct (bytes_eqb (i_class i') (i_class inst)) eqn:Ec.
+      + apply bytes_eqb_eq in Ec. rewrite Ec in Hct. assert (ti = ti2) by (eapply keys_functional; eauto). subst ti.
+        apply in_app_or in Hr'. destruct Hr' as [Hr'|[<-|[]]].
+        * destruct (Hcov0 r' i' k v Hr' Hf' Hkv Ec) as (pi & Hpi). exists pi. now apply Hm2.
+        * rewrite Hfi in Hf'. injection Hf' as <-. exact (Hc2 (k, v) Hkv).
+      + apply bytes_eqb_false_neq in Ec. apply (in_bset_cases _ _ _ _ Hf0) in Hct. destruct Hct as [[E _]|Hct]; [contradiction|].
+        destruct (Hold _ _ Hct) as [[= E _]|Hct']; [contradiction|].
+        apply in_app_or in Hr'. destruct Hr' as [Hr'|[<-|[]]]; [now apply (Hcov r' i' k v ti)|].
+        rewrite Hfi in Hf'. injection Hf' as <-. now elim Ec.
+    - intros c ti k pi Hct Hkp. apply (in_bset_cases _ _ _ _ Hf0) in Hct. destruct Hct as [[-> ->]|Hct].
+      + destruct (Ho2 k pi Hkp) as [Hk0|([pn pv] & Hin & E1 & E2)].
+        * destruct (Hor0 k pi Hk0) as [->|(r' & i' & v & A1 & A2 & A3 & A4 & A5)]; [now left|right].
+          exists r', i', v. split; [apply in_or_app; now left|auto].
+        * right. cbn [fst snd] in E1, E2. subst k. exists r, inst, pv. split; [apply in_or_app; right; now left|auto].
+      + destruct (Hold _ _ Hct) as [[= -> ->]|Hct'].
+        * destruct (Hor0 k pi Hkp) as [->|(r' & i' & v & A1 & A2 & A3 & A4 & A5)]; [now left|right].
+          exists r', i', v. split; [apply in_or_app; now left|auto].
+        * destruct (Hor c ti k pi Hct' Hkp) as [->|(r' & i' & v & A1 & A2 & A3 & A4 & A5)]; [now left|right].
+          exists r', i', v. split; [apply in_or_app; now left|auto]. }
+  unfold collect_type_info in H. cbn [ss_types ss_next_id ss_sstr ss_relevant] in H.
+  destruct (bfind (i_class inst) (ss_types st)) as [ti0|] eqn:Hf.
+  - match type of H with rbind ?X _ = _ => destruct X as [[ss2 ti2]| | |] eqn:Ef end; cbn [rbind] in H; try discriminate.
+    injection H as <-. apply (G (ss_types st) ti0 (ss_next_id st) ss2 ti2 Hndk Hf); [|auto| | | | |exact Ef].
+    + apply (Hvis (i_class inst)). now apply bfind_in.
+    + intros r' i' k v Hr' Hf' Hkv Ec. apply (Hcov r' i' k v ti0 Hr' Hf' Hkv). rewrite Ec. now apply bfind_in.
+    + intros k pi Hkp. apply (Hor (i_class inst) ti0 k pi); [now apply bfind_in|exact Hkp].
+    + apply (Hsrt (i_class inst)). now apply bfind_in.
+    + exact Hsrt.
+  - match type of H with rbind ?X _ = _ => destruct X as [[ss2 ti2]| | |] eqn:Ef end; cbn [rbind] in H; try discriminate.
+    injection H as <-.
+    set (nti := new_type_info d (ss_next_id st) (i_class inst)) in *.
+    apply (G (binsert (i_class inst, nti) (ss_types st)) nti (ss_next_id st + 1) ss2 ti2); [| | | | | | | |exact Ef].
+    + eapply Permutation_NoDup; [symmetry; apply Permutation_map; apply binsert_perm|]. cbn [List.map fst]. constructor; [|exact Hndk].
+      now apply bfind_none_notin.
+    + now apply BinStructure.bfind_binsert_same.
+    + intros k [].
+    + intros c ti Hin. apply in_binsert in Hin. destruct Hin as [E|Hin]; [now left|now right].
+    + intros r' i' k v Hr' Hf' Hkv Ec. exfalso. apply (bfind_none_notin _ _ Hf). rewrite <- Ec.
+      pose proof (inv_cover _ _ Hinv r' Hr') as Hc. unfold class_of in Hc. now rewrite Hf' in Hc.
+    + intros k pi [[= <- _]|[]]. now left.
+    + unfold nti, new_type_info, keys_sorted. cbn [ti_props List.map fst]. repeat constructor.
+    + intros c ti Hin. apply in_binsert in Hin. destruct Hin as [[= -> ->]|Hin]; [|now apply (Hsrt c ti)].
+      unfold nti, new_type_info, keys_sorted. cbn [ti_props List.map fst]. repeat constructor.
+Qed.
+
+Lemma add_loop_tbl d dom : unknown_props d dom -> forall fuel outer stack lv st st',
+  types_inv dom st -> tbl_inv dom st -> add_loop fuel d dom outer stack lv st = Ok st' -> tbl_inv dom st'.
+Proof.
+  intros Hun. induction fuel as [|f IH]; intros outer stack lv st st' Hinv Hc H; [discriminate|].
+  cbn [add_loop] in H. destruct stack as [|x rest]; [now injection H as <-|].
+  destruct (find_inst dom x) as [inst|] eqn:Hfi; [|discriminate].
+  destruct outer; [exact (IH _ _ _ _ _ Hinv Hc H)|].
+  match type of H with (if ?c then _ else _) = _ => destruct c end; [exact (IH _ _ _ _ _ Hinv Hc H)|].
+  destruct (collect_type_info d _ inst) as [st1| | |] eqn:E; cbn [rbind] in H; try discriminate.
+  destruct (cti_step _ _ _ _ _ _ Hfi Hinv E) as (Hinv1 & _).
+  exact (IH _ _ _ _ _ Hinv1 (collect_tbl d dom st x inst st1 Hun Hfi Hinv Hc E) H).
+Qed.
+
+Theorem enc_tbl_inv d ep dom roots st : unknown_props d dom -> add_instances d ep dom roots = Ok st -> tbl_inv dom st.
+Proof.
+  intros Hun Hst. destruct (add_instances_inv _ _ _ _ _ Hst) as (st0 & Hl & Hrel & Ht & _).
+  assert (Hc : tbl_inv dom st0).
+  { eapply (add_loop_tbl d dom Hun); [apply types_inv0| |exact Hl].
+    split; [intros c ti []|split; [intros r i k v ti []|split; [intros c ti k pi []|intros c ti []]]]. }
+  unfold tbl_inv. rewrite Hrel, Ht. exact Hc.
+Qed.
+Print Assumptions enc_tbl_inv.
+
+(* ================================================================= (P) the normalised DOM is an encoder input of the same kind *)
+Lemma map_fst_filter {V} (q : bytes -> bool) (l : list (bytes * V)) :
+  List.map fst (filter (fun cp => q (fst cp)) l) = filter q (List.map fst l).
+Proof. induction l as [|x l IH]; [reflexivity|]. cbn [filter List.map]. destruct (q (fst x)); cbn [List.map]; now rewrite IH. Qed.
+Lemma nodup_filter {A} (q : A -> bool) l : NoDup l -> NoDup (filter q l).
+Proof. induction 1 as [|x l Hn _ IH]; [constructor|]. cbn [filter]. destruct (q x); [constructor; [|exact IH]|exact IH]. intro H. apply filter_In in H. tauto. Qed.
+Lemma bfind_fold_notin k l : forall acc, ~ In k (List.map fst l) ->
+  bfind k (fold_left (fun m (kv : bytes * value) => bupd (fst kv) (snd kv) m) l acc) = bfind k acc.
+Proof.
+  induction l as [|[k0 v0] l IH]; intros acc Hn; [reflexivity|]. cbn [fold_left fst snd List.map In] in *.
+  rewrite IH by tauto. rewrite bfind_bupd. replace (bytes_eqb k k0) with false; [reflexivity|].
+  symmetry. apply XmlDeterminism.beqb_false_iff. intro E. apply Hn. now left.
+Qed.
+Lemma bfind_collect_props k v l : NoDup (List.map fst l) -> In (k, v) l -> bfind k (collect_props l) = Some v.
+Proof.
+  unfold collect_props. generalize (@nil (bytes * value)) as acc.
+  induction l as [|[k0 v0] l IH]; intros acc Hnd Hin; [contradiction|]. cbn [List.map fst] in Hnd. inversion Hnd as [|? ? Hn Hd]; subst.
+  cbn [fold_left fst snd]. destruct Hin as [[= -> ->]|Hin].
+  - rewrite bfind_fold_notin by exact Hn. rewrite bfind_bupd, bytes_eqb_refl. reflexivity.
+  - now apply IH.
+Qed.
+Lemma collect_props_keys_in k l : In k (List.map fst (collect_props l)) -> In k (List.map fst l).
+Proof. intro H. apply in_map_iff in H. destruct H as ([k' v] & <- & Hin). apply collect_props_in in Hin. apply in_map_iff. exists (k', v). auto. Qed.
+
+Lemma simple_col_norm st wt vs : simple_col wt vs -> simple_col wt (List.map (norm_val0 st) vs).
+Proof.
+  intro H. destruct H; rewrite map_map; cbn [norm_val0].
+  - apply sc_bool. - now apply sc_int32. - now apply sc_int64. - now apply sc_float32. - now apply sc_float64.
+  - now apply sc_bstring. - now apply sc_bstring.
+  - rewrite <- (map_map (ref_keep st) VRef). apply sc_ref.
+Qed.
+Lemma simple_col_wire st wt vs v : simple_col wt vs -> In v vs -> from_rbx_type (vtype (norm_val0 st v)) = Some wt.
+Proof. intros Hs Hin. destruct Hs; apply in_map_iff in Hin; destruct Hin as (x & <- & _); reflexivity. Qed.
+
+Lemma sorted_keys_ext (l : list bytes) : forall l',
+  StronglySorted blt l -> StronglySorted blt l' -> (forall x, In x l <-> In x l') -> l = l'.
+Proof.
+  induction l as [|a r IH]; intros [|a' r'] Hs Hs' Hin.
+  - reflexivity.
+  - exfalso. apply (proj2 (Hin a')). left; reflexivity.
+  - exfalso. apply (proj1 (Hin a)). left; reflexivity.
+  - apply StronglySorted_inv in Hs. destruct Hs as [Hsr Ha].
+    apply StronglySorted_inv in Hs'. destruct Hs' as [Hsr' Ha'].
+    rewrite Forall_forall in Ha, Ha'.
+    assert (Haa : a = a').
+    { destruct (proj1 (Hin a) (or_introl eq_refl)) as [E|E]; [auto|].
+      destruct (proj2 (Hin a') (or_introl eq_refl)) as [E'|E']; [auto|].
+      exfalso. apply (blt_irrefl a). apply (blt_trans _ a'); [apply Ha|apply Ha']; assumption. }
+    subst a'. f_equal. apply IH; try assumption.
+    intro x. split; intro Hx.
+    + destruct (proj1 (Hin x) (or_intror Hx)) as [E|E]; [|exact E].
+      subst x. exfalso. apply (blt_irrefl a). now apply Ha.
+    + destruct (proj2 (Hin x) (or_intror Hx)) as [E|E]; [|exact E].
+      subst x. exfalso. apply (blt_irrefl a). now apply Ha'.
+Qed.
+
+Definition simple_val (v : value) : Prop :=
+  match v with VBool _ | VInt32 _ | VInt64 _ | VFloat32 _ | VFloat64 _ | VString _ | VBinaryString _ | VRef _ => True | _ => False end.
+Lemma simple_col_val wt vs v : simple_col wt vs -> In v vs -> simple_val v.
+Proof. intros Hs Hin. destruct Hs; apply in_map_iff in Hin; destruct Hin as (x & <- & _); exact I. Qed.
+
+Section BinFix.
+  Variables (d : db) (ep : enc_params) (cmp : compression) (dom : cdom) (ts : list tree) (b : bytes) (p : dec_params) (st : ser_state).
+  Hypothesis Hin : BinRoundTrip.input_ok dom ts.
+  Hypothesis Hnames : names_ok dom.
+  Hypothesis Hun : unknown_props d dom.
+  Hypothesis Hord : ep_order ep [] = [].
+  Hypothesis Hst : add_instances d ep dom (List.map root ts) = Ok st.
+  Hypothesis Hsimple : forall x, In x (cols (ss_types st)) -> fst (snd x) <> NAME -> simple_col (pi_type (snd (snd x))) (col_values ep dom x).
+  Let W := flat_map refs ts.
+  Let roots := List.map root ts.
+  Let nd := bnorm_dom st roots dom.
+
+  Lemma bf_rel : ss_relevant st = flat_map post ts /\ NoDup (ss_relevant st) /\ forall r, In r W <-> In r (ss_relevant st).
+  Proof.
+    destruct Hin as (_ & _ & Hag & HndW & _). destruct (enc_relevant_postorder d ep dom ts st Hag HndW Hst) as [Hrel Hndr].
+    split; [exact Hrel|]. split; [exact Hndr|]. intro r. rewrite Hrel. unfold W.
+    split; intro H; [eapply Permutation_in; [apply Permutation_sym, post_perm_refs_forest|exact H]
+                    |eapply Permutation_in; [apply post_perm_refs_forest|exact H]].
+  Qed.
+  Lemma bf_inv : types_inv dom st.
+  Proof. destruct (add_instances_inv _ _ _ _ _ Hst) as (_ & _ & _ & _ & _ & _ & Hinv). exact Hinv. Qed.
+  Lemma bf_found r : In r W -> exists i, find_inst dom r = Some i /\ i_ref i = r /\ In i dom.
+  Proof.
+    intro Hr. pose proof (inv_found _ _ bf_inv r (proj1 (proj2 (proj2 bf_rel) r) Hr)) as Hne.
+    destruct (find_inst dom r) as [i|] eqn:Ef; [|contradiction]. destruct (rs_find_inst_some _ _ _ Ef). exists i. auto.
+  Qed.
+  Lemma bf_types_nodup : NoDup (List.map fst (ss_types st)).
+  Proof. apply sorted_NoDup, (inv_sorted _ _ bf_inv). Qed.
+  Lemma bf_entry r : In r W -> exists ti, In (class_of dom r, ti) (ss_types st) /\ bfind (class_of dom r) (ss_types st) = Some ti /\ In r (ti_instances ti).
+  Proof.
+    intro Hr. apply bf_rel in Hr. pose proof (inv_cover _ _ bf_inv r Hr) as Hc. apply in_map_iff in Hc. destruct Hc as ([c ti] & Ec & Hct).
+    cbn [fst] in Ec. subst c. exists ti. split; [exact Hct|]. split; [apply in_bfind; [exact bf_types_nodup|exact Hct]|].
+    rewrite (inv_insts _ _ bf_inv _ _ Hct). apply filter_In. split; [exact Hr|]. unfold of_class. apply bytes_eqb_refl.
+  Qed.
+  Lemma bf_insts_W c ti r : In (c, ti) (ss_types st) -> In r (ti_instances ti) -> In r W /\ class_of dom r = c.
+  Proof.
+    intros Hct Hr. rewrite (inv_insts _ _ bf_inv _ _ Hct) in Hr. apply filter_In in Hr. destruct Hr as [Hr Hc]. split; [now apply bf_rel|].
+    unfold of_class in Hc. now apply bytes_eqb_eq.
+  Qed.
+
+  (* the value the first save writes for instance r in the column cp of its class *)
+  Definition colv (r : N) (cp : bytes * prop_info) : value :=
+    match bfind (fst cp) (i_props (src dom r)) with Some v => v | None => pi_default (snd cp) end.
+  Lemma bf_colv c ti r cp : In (c, ti) (ss_types st) -> In r (ti_instances ti) -> In cp (ti_props ti) -> fst cp <> NAME ->
+    In (colv r cp) (col_values ep dom (c, ti, cp)) /\ simple_col (pi_type (snd cp)) (col_values ep dom (c, ti, cp)).
+  Proof.
+    intros Hct Hr Hcp Hn. destruct cp as [canon pi]. cbn [fst snd] in *.
+    destruct (unknown_props_table d ep dom _ st Hun Hst) as (_ & _ & _ & Hpl).
+    assert (Hx : In (c, ti, (canon, pi)) (cols (ss_types st))).
+    { unfold cols. apply in_flat_map. exists (c, ti). split; [exact Hct|]. apply in_map_iff. exists (canon, pi). auto. }
+    destruct (Hpl _ Hx) as (_ & E2 & E3). cbn [fst snd] in E2, E3.
+    assert (Hnn : bytes_eqb canon NAME = false) by (apply XmlDeterminism.beqb_false_iff; exact Hn).
+    split; [|exact (Hsimple _ Hx Hn)]. unfold colv. cbn [fst snd].
+    rewrite <- (prop_value_plain ep canon pi (src dom r) E2 E3 Hord Hnn). unfold col_values. apply in_map. now apply in_map.
+  Qed.
+
+  (* ---- the normalised DOM *)
+  Lemma bf_nd_find r : find_inst nd r = option_map (bnorm_inst st roots) (find_inst dom r).
+  Proof. apply find_inst_bnorm. Qed.
+  Lemma bf_nd_class r : class_of nd r = class_of dom r.
+  Proof. unfold class_of. rewrite bf_nd_find. destruct (find_inst dom r); reflexivity. Qed.
+  Lemma bf_nd_refs : List.map i_ref nd = List.map i_ref dom.
+  Proof. unfold nd, bnorm_dom. rewrite map_map. reflexivity. Qed.
+  Lemma bf_nd_kids r : In r W -> children_of nd r = children_of dom r.
+  Proof.
+    intro Hr. destruct Hin as (_ & _ & Hag & HndW & H0W). unfold children_of, nd, bnorm_dom.
+    assert (H : forall l, (forall j, In j l -> In j dom) ->
+              List.map i_ref (filter (fun i => i_parent i =? r) (List.map (bnorm_inst st roots) l)) =
+              List.map i_ref (filter (fun i => i_parent i =? r) l)).
+    { induction l as [|j l IH]; intro Hl; [reflexivity|]. cbn [List.map filter].
+      assert (Ej : (i_parent (bnorm_inst st roots j) =? r) = (i_parent j =? r)).
+      { unfold bnorm_inst. cbn [i_parent]. destruct (inW roots (i_ref j)) eqn:E; [|reflexivity].
+        apply inW_true in E. unfold roots in E. apply in_map_iff in E. destruct E as (t & Et & Ht).
+        replace (0 =? r) with false by (symmetry; apply N.eqb_neq; intro E0; subst r; contradiction).
+        symmetry. apply N.eqb_neq. intro Ep. apply (root_not_child (children_of dom) ts t r Hag HndW Ht Hr). rewrite Et, <- Ep.
+        apply in_children_of. apply Hl. now left. }
+      rewrite Ej. specialize (IH (fun j' Hj' => Hl j' (or_intror Hj'))).
+      destruct (i_parent j =? r); cbn [List.map]; rewrite IH; reflexivity. }
+    apply H. auto.
+  Qed.
+  Lemma bf_nd_src r : In r W -> exists i ti, find_inst dom r = Some i /\ bfind (class_of dom r) (ss_types st) = Some ti /\
+    In (class_of dom r, ti) (ss_types st) /\ In r (ti_instances ti) /\
+    src nd r = mkInst r (if inW roots r then 0 else i_parent i) (i_class i) (i_name i) (collect_props (source_props0 st ti (src dom r))) /\
+    i_class i = class_of dom r /\ src dom r = i.
+  Proof.
+    intro Hr. destruct (bf_found r Hr) as (i & Ef & Eref & _). destruct (bf_entry r Hr) as (ti & Hct & Hbf & Hri).
+    exists i, ti. split; [exact Ef|]. split; [exact Hbf|]. split; [exact Hct|]. split; [exact Hri|].
+    assert (Ec : i_class i = class_of dom r) by (unfold class_of; now rewrite Ef).
+    assert (Es : src dom r = i) by (unfold src; now rewrite Ef).
+    split; [|split; [exact Ec|exact Es]].
+    unfold src at 1. rewrite bf_nd_find, Ef. cbn [option_map]. unfold bnorm_inst. rewrite Eref. f_equal.
+    rewrite <- Es at 1. apply bnorm_props_entry. exact Hbf.
+  Qed.
+
+  Lemma bf_ti_keys_nodup c ti : In (c, ti) (ss_types st) -> NoDup (List.map fst (ti_props ti)).
+  Proof. intro Hct. apply sorted_NoDup. exact (proj2 (proj2 (proj2 (enc_tbl_inv d ep dom _ st Hun Hst))) c ti Hct). Qed.
+
+  (* the property table of a written instance of the normalised DOM: one value per column of its class *)
+  Lemma bf_nd_props r ti : In r W -> bfind (class_of dom r) (ss_types st) = Some ti ->
+    i_props (src nd r) = collect_props (source_props0 st ti (src dom r)) /\
+    (forall cp, In cp (ti_props ti) -> fst cp <> NAME -> bfind (fst cp) (i_props (src nd r)) = Some (norm_val0 st (colv r cp))) /\
+    (forall k, In k (List.map fst (i_props (src nd r))) -> k <> NAME /\ In k (List.map fst (ti_props ti))).
+  Proof.
+    intros Hr Hbf. destruct (bf_nd_src r Hr) as (i & ti' & Ef & Hbf' & Hct & Hri & Esrc & Ec & Es). rewrite Hbf in Hbf'. inversion Hbf'; subst ti'.
+    assert (Ep : i_props (src nd r) = collect_props (source_props0 st ti (src dom r))) by (rewrite Esrc; reflexivity).
+    split; [exact Ep|]. split.
+    - intros cp Hcp Hn. rewrite Ep. apply bfind_collect_props.
+      + unfold source_props0. rewrite map_map. cbn [fst]. 
+        change (fun x : bytes * prop_info => fst x) with (@fst bytes prop_info).
+        rewrite (map_fst_filter (fun k => negb (bytes_eqb k NAME))). apply nodup_filter. now apply (bf_ti_keys_nodup (class_of dom r)).
+      + unfold source_props0. apply in_map_iff. exists cp. split; [reflexivity|]. apply filter_In. split; [exact Hcp|].
+        apply negb_true_iff. now apply XmlDeterminism.beqb_false_iff.
+    - intros k Hk. rewrite Ep in Hk. apply collect_props_keys_in in Hk. unfold source_props0 in Hk. rewrite map_map in Hk. cbn [fst] in Hk.
+      apply in_map_iff in Hk. destruct Hk as (cp & <- & Hcp). apply filter_In in Hcp. destruct Hcp as [Hcp Hnn].
+      apply negb_true_iff, XmlDeterminism.beqb_false_iff in Hnn. split; [exact Hnn|]. now apply in_map.
+  Qed.
+
+  Lemma bf_nd_input_ok : BinRoundTrip.input_ok nd ts.
+  Proof.
+    destruct Hin as (Hnd_dom & Hcl & Hag & HndW & H0W). split; [rewrite bf_nd_refs; exact Hnd_dom|]. split; [|split; [|split; assumption]].
+    - unfold class_ok in *. apply Forall_forall. intros i Hi. unfold nd, bnorm_dom in Hi. apply in_map_iff in Hi. destruct Hi as (i0 & <- & Hi0).
+      rewrite Forall_forall in Hcl. exact (Hcl i0 Hi0).
+    - rewrite Forall_forall in *. intros t Ht. apply (agrees_ext (children_of dom)); [|apply Hag, Ht].
+      intros r Hr. symmetry. apply bf_nd_kids. apply in_flat_map. exists t. split; assumption.
+  Qed.
+  Lemma bf_nd_names_ok : names_ok nd.
+  Proof.
+    unfold names_ok in *. apply Forall_forall. intros i Hi. unfold nd, bnorm_dom in Hi. apply in_map_iff in Hi. destruct Hi as (i0 & <- & Hi0).
+    rewrite Forall_forall in Hnames. exact (Hnames i0 Hi0).
+  Qed.
+  Lemma bf_nd_unknown : unknown_props d nd.
+  Proof.
+    intros i pname v Hi Hkv. unfold nd, bnorm_dom in Hi. apply in_map_iff in Hi. destruct Hi as (i0 & <- & Hi0).
+    cbn [bnorm_inst i_class i_props] in *. unfold bnorm_props in Hkv.
+    destruct (bfind (i_class i0) (ss_types st)) as [ti|] eqn:Hbf; [|exact (Hun i0 pname v Hi0 Hkv)].
+    apply collect_props_in in Hkv. unfold source_props0 in Hkv. apply in_map_iff in Hkv. destruct Hkv as ([canon pi] & E & Hcp).
+    cbn [fst snd] in E. inversion E; subst pname. apply filter_In in Hcp. destruct Hcp as [Hcp Hnn]. cbn [fst] in Hnn.
+    apply negb_true_iff, XmlDeterminism.beqb_false_iff in Hnn.
+    destruct (enc_table_plain d ep dom _ st Hun Hst (i_class i0) ti (bfind_in _ _ _ Hbf) canon pi Hcp) as (_ & _ & _ & [E0|H]); [contradiction|exact H].
+  Qed.
+
+  (* ---- the class table of the second save *)
+  Variable st2 : ser_state.
+  Hypothesis Hst2 : add_instances d ep nd roots = Ok st2.
+
+  Lemma bf2_rel : ss_relevant st2 = ss_relevant st.
+  Proof.
+    destruct bf_nd_input_ok as (_ & _ & Hag2 & HndW & _). destruct (enc_relevant_postorder d ep nd ts st2 Hag2 HndW Hst2) as [Hrel2 _].
+    rewrite Hrel2. symmetry. apply bf_rel.
+  Qed.
+  Lemma bf2_inv : types_inv nd st2.
+  Proof. destruct (add_instances_inv _ _ _ _ _ Hst2) as (_ & _ & _ & _ & _ & _ & Hinv). exact Hinv. Qed.
+  Lemma bf2_insts c ti ti2 : In (c, ti) (ss_types st) -> In (c, ti2) (ss_types st2) -> ti_instances ti2 = ti_instances ti.
+  Proof.
+    intros Hct Hct2. rewrite (inv_insts _ _ bf_inv _ _ Hct), (inv_insts _ _ bf2_inv _ _ Hct2), bf2_rel.
+    apply filter_ext. intro r. unfold of_class. now rewrite bf_nd_class.
+  Qed.
+  Lemma bf2_entry r : In r W -> exists ti2, In (class_of dom r, ti2) (ss_types st2).
+  Proof.
+    intro Hr. apply bf_rel in Hr. rewrite <- bf2_rel in Hr. pose proof (inv_cover _ _ bf2_inv r Hr) as Hc. rewrite bf_nd_class in Hc.
+    apply in_map_iff in Hc. destruct Hc as ([c ti2] & Ec & Hct). cbn [fst] in Ec. subst c. exists ti2. exact Hct.
+  Qed.
+  Lemma bf2_nd_find r : In r W -> find_inst nd r = Some (src nd r) /\ i_class (src nd r) = class_of dom r.
+  Proof.
+    intro Hr. destruct (bf_found r Hr) as (i & Ef & _). unfold src. rewrite bf_nd_find, Ef. cbn [option_map]. split; [reflexivity|].
+    cbn [bnorm_inst i_class]. unfold class_of. now rewrite Ef.
+  Qed.
+
+  (* the columns of a class are the same in both tables, by name *)
+  Lemma bf2_keys c ti ti2 : In (c, ti) (ss_types st) -> In (c, ti2) (ss_types st2) ->
+    List.map fst (ti_props ti2) = List.map fst (ti_props ti).
+  Proof.
+    intros Hct Hct2.
+    destruct (enc_tbl_inv d ep dom _ st Hun Hst) as (_ & _ & _ & Hsrt).
+    destruct (enc_tbl_inv d ep nd _ st2 bf_nd_unknown Hst2) as (_ & Hcov2 & Hor2 & Hsrt2).
+    assert (Hbf : bfind c (ss_types st) = Some ti) by (apply in_bfind; [exact bf_types_nodup|exact Hct]).
+    apply sorted_keys_ext; [exact (Hsrt2 c ti2 Hct2)|exact (Hsrt c ti Hct)|].
+    intro k. split; intro Hk.
+    - apply in_map_iff in Hk. destruct Hk as ([k' pi2] & <- & Hkp). cbn [fst].
+      destruct (Hor2 c ti2 k' pi2 Hct2 Hkp) as [->|(r & i & v & Hr & Hf & Hc & Hkv & _)].
+      + destruct (proj1 (enc_name_entry _ _ _ _ _ Hst c ti Hct)) as (pi & Hpi). apply in_map_iff. exists (NAME, pi). auto.
+      + rewrite bf2_rel in Hr. apply bf_rel in Hr. destruct (bf2_nd_find r Hr) as [Hf' Hc']. rewrite Hf in Hf'. inversion Hf'; subst i.
+        rewrite Hc' in Hc. rewrite <- Hc in Hbf. apply (bf_nd_props r ti Hr Hbf). apply in_map_iff. exists (k', v). auto.
+    - apply in_map_iff in Hk. destruct Hk as ([k' pi] & <- & Hkp). cbn [fst].
+      destruct (bytes_eqb k' NAME) eqn:En.
+      + apply bytes_eqb_eq in En. subst k'. destruct (proj1 (enc_name_entry _ _ _ _ _ Hst2 c ti2 Hct2)) as (pi2 & Hpi). apply in_map_iff. exists (NAME, pi2). auto.
+      + apply XmlDeterminism.beqb_false_iff in En.
+        destruct (ti_instances ti) as [|r rs] eqn:Ei; [exfalso; exact (inv_nonempty _ _ bf_inv c ti Hct Ei)|].
+        assert (Hri : In r (ti_instances ti)) by (rewrite Ei; now left).
+        destruct (bf_insts_W c ti r Hct Hri) as [Hr Hc]. rewrite <- Hc in Hbf.
+        destruct (bf_nd_props r ti Hr Hbf) as (_ & Hval & _). pose proof (Hval (k', pi) Hkp En) as Hb. cbn [fst] in Hb. apply bfind_in in Hb.
+        destruct (bf2_nd_find r Hr) as [Hf' Hc'].
+        assert (Hr2 : In r (ss_relevant st2)) by (rewrite bf2_rel; now apply bf_rel).
+        destruct (Hcov2 r (src nd r) k' _ ti2 Hr2 Hf' Hb) as (pi2 & Hpi2); [rewrite Hc', Hc; exact Hct2|].
+        apply in_map_iff. exists (k', pi2). auto.
+  Qed.
+
+  Lemma bf_colvalues c ti cp : In (c, ti) (ss_types st) -> In cp (ti_props ti) -> fst cp <> NAME ->
+    col_values ep dom (c, ti, cp) = List.map (fun r => colv r cp) (ti_instances ti).
+  Proof.
+    intros Hct Hcp Hn. destruct cp as [canon pi]. cbn [fst snd] in *.
+    destruct (unknown_props_table d ep dom _ st Hun Hst) as (_ & _ & _ & Hpl).
+    assert (Hx : In (c, ti, (canon, pi)) (cols (ss_types st))).
+    { unfold cols. apply in_flat_map. exists (c, ti). split; [exact Hct|]. apply in_map_iff. exists (canon, pi). auto. }
+    destruct (Hpl _ Hx) as (_ & E2 & E3). cbn [fst snd] in E2, E3.
+    assert (Hnn : bytes_eqb canon NAME = false) by (apply XmlDeterminism.beqb_false_iff; exact Hn).
+    unfold col_values. rewrite map_map. apply map_ext. intro r. unfold colv. cbn [fst snd]. now apply prop_value_plain.
+  Qed.
+
+  (* the class entry of the first table for an entry of the second *)
+  Lemma bf2_entry_back c ti2 : In (c, ti2) (ss_types st2) -> exists ti, In (c, ti) (ss_types st).
+  Proof.
+    intro Hct2. destruct (ti_instances ti2) as [|r rs] eqn:Ei; [exfalso; exact (inv_nonempty _ _ bf2_inv c ti2 Hct2 Ei)|].
+    assert (Hri : In r (ti_instances ti2)) by (rewrite Ei; now left).
+    rewrite (inv_insts _ _ bf2_inv _ _ Hct2) in Hri. apply filter_In in Hri. destruct Hri as [Hr Hc].
+    unfold of_class in Hc. apply bytes_eqb_eq in Hc. rewrite bf_nd_class in Hc. rewrite bf2_rel in Hr. apply bf_rel in Hr.
+    destruct (bf_entry r Hr) as (ti & Hct & _). rewrite Hc in Hct. exists ti. exact Hct.
+  Qed.
+
+  Lemma bf2_simple x2 : In x2 (cols (ss_types st2)) -> fst (snd x2) <> NAME -> simple_col (pi_type (snd (snd x2))) (col_values ep nd x2).
+  Proof.
+    destruct x2 as [[c ti2] [k pi2]]. cbn [fst snd]. intros Hx2 Hn.
+    assert (Hc2 : In (c, ti2) (ss_types st2) /\ In (k, pi2) (ti_props ti2)).
+    { unfold cols in Hx2. apply in_flat_map in Hx2. destruct Hx2 as (ct & Hct & Hx). apply in_map_iff in Hx.
+      destruct Hx as (cp & E & Hcp). inversion E; subst. auto. }
+    destruct Hc2 as [Hct2 Hkp2]. destruct (bf2_entry_back c ti2 Hct2) as (ti & Hct).
+    assert (Hk : In k (List.map fst (ti_props ti))) by (rewrite <- (bf2_keys c ti ti2 Hct Hct2); apply in_map_iff; exists (k, pi2); auto).
+    apply in_map_iff in Hk. destruct Hk as ([k' pi] & Ek & Hkp). cbn [fst] in Ek. subst k'.
+    assert (Hbf : bfind c (ss_types st) = Some ti) by (apply in_bfind; [exact bf_types_nodup|exact Hct]).
+    assert (Hnn : bytes_eqb k NAME = false) by (apply XmlDeterminism.beqb_false_iff; exact Hn).
+    (* the values of the column *)
+    destruct (unknown_props_table d ep nd _ st2 bf_nd_unknown Hst2) as (_ & _ & _ & Hpl2).
+    destruct (Hpl2 _ Hx2) as (_ & E2 & E3). cbn [fst snd] in E2, E3.
+    assert (Ecol : col_values ep nd (c, ti2, (k, pi2)) = List.map (norm_val0 st) (col_values ep dom (c, ti, (k, pi)))).
+    { rewrite (bf_colvalues c ti (k, pi) Hct Hkp Hn). unfold col_values. rewrite (bf2_insts c ti ti2 Hct Hct2), !map_map.
+      apply map_ext_in. intros r Hr. rewrite (prop_value_plain ep k pi2 (src nd r) E2 E3 Hord Hnn).
+      destruct (bf_insts_W c ti r Hct Hr) as [HrW Hc]. rewrite <- Hc in Hbf.
+      destruct (bf_nd_props r ti HrW Hbf) as (_ & Hval & _). pose proof (Hval (k, pi) Hkp Hn) as Hb. cbn [fst] in Hb.
+      rewrite Hb. reflexivity. }
+    (* the wire type of the column *)
+    destruct (enc_tbl_inv d ep nd _ st2 bf_nd_unknown Hst2) as (_ & _ & Hor2 & _).
+    destruct (Hor2 c ti2 k pi2 Hct2 Hkp2) as [->|(r & i & v & Hr & Hf & Hc & Hkv & Hty)]; [contradiction|].
+    rewrite bf2_rel in Hr. apply bf_rel in Hr. destruct (bf2_nd_find r Hr) as [Hf' Hc']. rewrite Hf in Hf'. inversion Hf'; subst i.
+    rewrite Hc' in Hc. rewrite <- Hc in Hbf. destruct (bf_nd_props r ti Hr Hbf) as (Ep & _ & _).
+    rewrite Ep in Hkv. apply collect_props_in in Hkv. unfold source_props0 in Hkv. apply in_map_iff in Hkv. destruct Hkv as ([k' pi'] & E & Hcp).
+    cbn [fst snd] in E. inversion E as [[Ek Ev]]. subst k'. apply filter_In in Hcp. destruct Hcp as [Hcp _].
+    assert (pi' = pi) by (eapply keys_functional; [apply (bf_ti_keys_nodup c ti Hct)|exact Hcp|exact Hkp]). subst pi'.
+    assert (Hri : In r (ti_instances ti)) by (destruct (bf_entry r Hr) as (ti' & Hct' & Hbf' & Hri'); rewrite Hbf in Hbf'; inversion Hbf'; subst ti'; exact Hri').
+    destruct (bf_colv c ti r (k, pi) Hct Hri Hkp Hn) as [Hinv Hsc]. cbn [snd] in Hsc.
+    change (norm_val0 st (colv r (k, pi)) = v) in Ev. rewrite <- Ev, (simple_col_wire st _ _ _ Hsc Hinv) in Hty. inversion Hty as [Et].
+    rewrite Ecol. first [rewrite <- Et|idtac]. now apply simple_col_norm.
+  Qed.
+
+  (* ---- the second round trip *)
+  Let L2' := fun x => if inW W x then lbl st2 x else 0.
+  Lemma bf2_L x : L2' x = ref_new st2 x.
+  Proof.
+    unfold L2', ref_new. rewrite bf2_rel. destruct (inW W x) eqn:E.
+    - apply inW_true, bf_rel in E. replace (existsb (N.eqb x) (ss_relevant st)) with true; [reflexivity|]. symmetry. now apply inW_true.
+    - apply inW_false in E. replace (existsb (N.eqb x) (ss_relevant st)) with false; [reflexivity|]. symmetry. apply inW_false.
+      intro H. apply E, bf_rel, H.
+  Qed.
+  Lemma bf_val_rename c ti r cp : In (c, ti) (ss_types st) -> In r (ti_instances ti) -> In cp (ti_props ti) -> fst cp <> NAME ->
+    norm_val st2 (norm_val0 st (colv r cp)) = rename_value L2' (norm_val0 st (colv r cp)) /\
+    match norm_val0 st (colv r cp) with VRef x => x = 0 \/ In x W | VContent (CObject _) => False | _ => True end.
+  Proof.
+    intros Hct Hr Hcp Hn. destruct (bf_colv c ti r cp Hct Hr Hcp Hn) as [Hinv Hsc].
+    pose proof (simple_col_val _ _ _ Hsc Hinv) as Hsv. destruct (colv r cp); try contradiction Hsv; cbn [norm_val0 norm_val rename_value]; try (split; [reflexivity|exact I]).
+    split; [now rewrite bf2_L|]. unfold ref_keep. destruct (existsb (N.eqb r0) (ss_relevant st)) eqn:E; [right|now left].
+    apply bf_rel. now apply inW_true.
+  Qed.
+
+  Hypothesis Hdb : db_defaults_null d = true.
+  Hypothesis Hlim : dp_lim p = None.
+  Variable b2 : bytes.
+  Hypothesis Hf2 : encode_file d ep cmp nd roots = Ok b2.
+  Hypothesis Hs2 : forall e, encode_chunks d ep nd roots = Ok e -> frame_ok p cmp e.
+  Hypothesis Hss2 : sstr_ok st2.
+
+  Theorem bf_fix : exists out2, decode_file d p b2 = Ok out2 /\ encode_file d ep cmp out2 (children_of out2 0) = Ok b2.
+  Proof.
+    destruct (unknown_props_roundtrip d ep cmp nd ts b2 p st2 bf_nd_input_ok bf_nd_names_ok bf_nd_unknown Hord Hf2 Hst2 Hlim Hs2 Hss2 bf2_simple)
+      as (out2 & Hdec & Hsf2 & Hinst2).
+    exists out2. split; [exact Hdec|]. rewrite <- Hf2.
+    destruct bf_nd_input_ok as (Hnd_nd & _ & Hag2 & HndW & H0W).
+    apply (bin_resave_generic d ep cmp nd ts (lbl st2) out2 nd (fun r => i_props (src nd r)) Hnd_nd Hag2 HndW H0W Hsf2).
+    - (* the decoded instances *)
+      intros r Hr. fold W in Hr. destruct (bf_nd_src r Hr) as (i & ti & Ef & Hbf & Hct & Hri & Esrc & Ec & Es).
+      destruct (bf2_entry r Hr) as (ti2 & Hct2). destruct (bf_nd_props r ti Hr Hbf) as (Ep & Hval & _).
+      assert (Hri2 : In r (ti_instances ti2)) by (rewrite (bf2_insts _ ti ti2 Hct Hct2); exact Hri).
+      destruct (In_nth_error _ _ Hri2) as (k & Hk). rewrite <- bf_nd_class in Hct2.
+      destruct (Hinst2 _ ti2 k r Hct2 Hk) as (i2 & H1 & _ & H3 & H4 & H5). exists i2. split; [exact H1|]. split; [exact H3|]. split; [exact H4|].
+      rewrite H5, Ep. unfold rename_props. rewrite <- collect_props_map_values. f_equal. fold W. fold L2'.
+      unfold source_props, source_props0. rewrite map_map. cbn [fst snd].
+      set (q := fun k0 : bytes => negb (bytes_eqb k0 NAME)).
+      set (H := fun k0 : bytes => (k0, norm_val st2 (match bfind k0 (i_props (src nd r)) with Some v => v | None => VBool false end))).
+      rewrite bf_nd_class in Hct2.
+      transitivity (List.map H (List.map fst (filter (fun cp => q (fst cp)) (ti_props ti2)))).
+      + rewrite map_map. apply map_ext_in. intros [k0 pi2] Hcp. apply filter_In in Hcp. destruct Hcp as [Hcp Hq]. cbn [fst snd] in *. unfold H. f_equal. f_equal.
+        assert (Hk0 : In k0 (List.map fst (ti_props ti))) by (rewrite <- (bf2_keys _ ti ti2 Hct Hct2); apply in_map_iff; exists (k0, pi2); auto).
+        apply in_map_iff in Hk0. destruct Hk0 as ([k0' pi] & Ek & Hkp). cbn [fst] in Ek. subst k0'.
+        unfold q in Hq. apply negb_true_iff, XmlDeterminism.beqb_false_iff in Hq.
+        pose proof (Hval (k0, pi) Hkp Hq) as Hb. cbn [fst] in Hb. rewrite Hb. reflexivity.
+      + rewrite !(map_fst_filter q), (bf2_keys _ ti ti2 Hct Hct2), <- (map_fst_filter q), map_map. apply map_ext_in.
+        intros [k0 pi] Hcp. apply filter_In in Hcp. destruct Hcp as [Hcp Hq]. cbn [fst snd] in *. unfold H. f_equal.
+        unfold q in Hq. apply negb_true_iff, XmlDeterminism.beqb_false_iff in Hq.
+        pose proof (Hval (k0, pi) Hcp Hq) as Hb. cbn [fst] in Hb. rewrite Hb.
+        exact (proj1 (bf_val_rename _ ti r (k0, pi) Hct Hri Hcp Hq)).
+    - (* the values *)
+      intros r kv Hr Hkv. fold W in Hr. cbv beta in Hkv. destruct (bf_nd_src r Hr) as (i & ti & Ef & Hbf & Hct & Hri & Esrc & Ec & Es).
+      destruct (bf_nd_props r ti Hr Hbf) as (Ep & _ & _). rewrite Ep in Hkv. apply collect_props_in in Hkv. unfold source_props0 in Hkv.
+      apply in_map_iff in Hkv. destruct Hkv as (cp & <- & Hcp). cbn [snd]. apply filter_In in Hcp. destruct Hcp as [Hcp Hq].
+      apply negb_true_iff, XmlDeterminism.beqb_false_iff in Hq. fold W.
+      exact (proj2 (bf_val_rename _ ti r cp Hct Hri Hcp Hq)).
+    - (* the source shows them *)
+      intros r Hr. fold W in Hr. destruct (bf2_nd_find r Hr) as [Hf' Hc']. rewrite Hf'. f_equal.
+      destruct (bf_nd_src r Hr) as (i & ti & Ef & Hbf & Hct & Hri & Esrc & Ec & Es). rewrite bf_nd_class.
+      rewrite Esrc at 1. cbn [i_parent i_name i_props]. rewrite Esrc. cbn [i_parent i_name i_props]. fold roots. rewrite Ec.
+      destruct (inW roots r); reflexivity.
+    - reflexivity.
+    - rewrite <- (map_length i_ref nd). apply NoDup_incl_length; [exact HndW|]. intros r Hr. fold W in Hr.
+      destruct (bf2_nd_find r Hr) as [Hf' _]. destruct (rs_find_inst_some _ _ _ Hf') as [Hi <-]. now apply in_map.
+    - exact Hdb.
+  Qed.
+End BinFix.
+Print Assumptions bf_fix.
+
+(* ================================================================= (Q) C07, second half, binary: the fixed point after the first save *)
+(* [out] is what is loaded from the first save of [dom].  Saving [out] (bytes b2), loading b2 and saving again gives b2 again.
+   Hypotheses beyond those of [bin_resave], all about the SECOND save and of the same kind as the corresponding hypotheses about
+   the first: the compressor law / size limits on the chunks of the second file ([frame_ok], stated on the chunks of [out]), and
+   the u32 limits on the shared-string table of the second traversal ([sstr_ok]; the traversal is that of the normalised DOM, which
+   yields the same chunks as that of [out]: [bin_resave_chunks]). *)
+Theorem bin_resave_fixed_point d ep cmp dom ts b p st :
+  BinRoundTrip.input_ok dom ts -> names_ok dom -> unknown_props d dom -> ep_order ep [] = [] ->
+  encode_file d ep cmp dom (List.map root ts) = Ok b ->
+  add_instances d ep dom (List.map root ts) = Ok st ->
+  dp_lim p = None ->
+  (forall e, encode_chunks d ep dom (List.map root ts) = Ok e -> frame_ok p cmp e) ->
+  sstr_ok st ->
+  (forall x, In x (cols (ss_types st)) -> fst (snd x) <> NAME -> simple_col (pi_type (snd (snd x))) (col_values ep dom x)) ->
+  db_defaults_null d = true ->
+  exists out,
+    decode_file d p b = Ok out /\ BinRoundTrip.same_forest dom ts (lbl st) out /\
+    encode_file d ep cmp out (children_of out 0) = encode_file d ep cmp (bnorm_dom st (List.map root ts) dom) (List.map root ts) /\
+    forall b2,
+      encode_file d ep cmp out (children_of out 0) = Ok b2 ->
+      (forall e2, encode_chunks d ep out (children_of out 0) = Ok e2 -> frame_ok p cmp e2) ->
+      (forall st2, add_instances d ep (bnorm_dom st (List.map root ts) dom) (List.map root ts) = Ok st2 -> sstr_ok st2) ->
+      exists out2, decode_file d p b2 = Ok out2 /\ encode_file d ep cmp out2 (children_of out2 0) = Ok b2.
+Proof.
+  intros H1 H2 H3 H4 H5 H6 H7 H8 H9 H10 H11.
+  destruct (bin_resave_chunks d ep cmp dom ts b p st H1 H2 H3 H4 H5 H6 H7 H8 H9 H10 H11) as (out & Hd & Hsf & E).
+  exists out. split; [exact Hd|]. split; [exact Hsf|]. split; [unfold encode_file; now rewrite E|].
+  intros b2 Hf2 Hs2 Hss2.
+  assert (Hf2' : encode_file d ep cmp (bnorm_dom st (List.map root ts) dom) (List.map root ts) = Ok b2) by (unfold encode_file in *; now rewrite <- E).
+  rewrite E in Hs2.
+  assert (Hst2 : exists st2, add_instances d ep (bnorm_dom st (List.map root ts) dom) (List.map root ts) = Ok st2).
+  { unfold encode_file, encode_chunks in Hf2'.
+    destruct (add_instances d ep (bnorm_dom st (List.map root ts) dom) (List.map root ts)) as [st2| | |]; cbn [rbind] in Hf2'; try discriminate.
+    now exists st2. }
+  destruct Hst2 as (st2 & Hst2).
+  exact (bf_fix d ep cmp dom ts p st H1 H2 H3 H4 H6 H10 st2 Hst2 H11 H7 b2 Hf2' Hs2 (Hss2 st2 Hst2)).
+Qed.
+Print Assumptions bin_resave_fixed_point.
+
+
+(* non-vacuity: every hypothesis of [bin_resave_fixed_point], including those on the second save, holds on the sample DOM of
+   BinRoundTrip; the third save is obtained from the theorem, not by computing it *)
+Definition fx_out : cdom := Eval vm_compute in match decode_file db0 (dp0 None) sample_file with Ok o => o | _ => [] end.
+Definition fx_b2 : bytes := Eval vm_compute in match encode_file db0 ep0 None fx_out (children_of fx_out 0) with Ok x => x | _ => [] end.
+Definition fx_e2 : encoded := Eval vm_compute in match encode_chunks db0 ep0 fx_out (children_of fx_out 0) with Ok e => e | _ => mkEnc [] [] end.
+Definition fx_st2 : ser_state := Eval vm_compute in
+  match add_instances db0 ep0 (bnorm_dom SampleRoundTrip.sample_st [1] sample_dom) [1] with Ok s => s | _ => ser_state0 end.
+Lemma fx_out_ok : decode_file db0 (dp0 None) sample_file = Ok fx_out. Proof. vm_compute. reflexivity. Qed.
+Lemma fx_b2_ok : encode_file db0 ep0 None fx_out (children_of fx_out 0) = Ok fx_b2. Proof. vm_compute. reflexivity. Qed.
+Lemma fx_e2_ok : encode_chunks db0 ep0 fx_out (children_of fx_out 0) = Ok fx_e2. Proof. vm_compute. reflexivity. Qed.
+Lemma fx_st2_ok : add_instances db0 ep0 (bnorm_dom SampleRoundTrip.sample_st (List.map root [sample_tree]) sample_dom) (List.map root [sample_tree]) = Ok fx_st2.
+Proof. vm_compute. reflexivity. Qed.
+Lemma fx_frame_ok e : encode_chunks db0 ep0 fx_out (children_of fx_out 0) = Ok e -> frame_ok (dp0 None) None e.
+Proof.
+  rewrite fx_e2_ok. intros [= <-]. unfold frame_ok, fx_e2. cbn [en_chunks].
+  repeat (constructor; [split; [split; [vm_compute; reflexivity|exact I]|exact I]|]). constructor.
+Qed.
+Lemma fx_sstr_ok : sstr_ok fx_st2.
+Proof. split; [vm_compute; reflexivity|constructor]. Qed.
+Example bin_resave_fixed_point_sample :
+  exists out b2 out2,
+    decode_file db0 (dp0 None) sample_file = Ok out /\
+    encode_file db0 ep0 None out (children_of out 0) = Ok b2 /\
+    decode_file db0 (dp0 None) b2 = Ok out2 /\
+    encode_file db0 ep0 None out2 (children_of out2 0) = Ok b2.
+Proof.
+  destruct (bin_resave_fixed_point db0 ep0 None sample_dom [sample_tree] sample_file (dp0 None) SampleRoundTrip.sample_st
+              SampleRoundTrip.sample_input_ok SampleRoundTrip.sample_names_ok SampleRoundTrip2.sample_unknown_props eq_refl
+              sample_encodes SampleRoundTrip.sample_st_ok eq_refl SampleRoundTrip.sample_frame_ok SampleRoundTrip.sample_sstr_ok
+              (fun x Hx Hn => proj2 (SampleRoundTrip.sample_plain_cols x Hx Hn)) eq_refl) as (out & Hd & _ & _ & Hfix).
+  rewrite fx_out_ok in Hd. inversion Hd; subst out.
+  destruct (Hfix fx_b2 fx_b2_ok fx_frame_ok) as (out2 & Hd2 & He2).
+  { intros st2 Hst2. rewrite fx_st2_ok in Hst2. inversion Hst2; subst st2. exact fx_sstr_ok. }
+  exists fx_out, fx_b2, out2. split; [exact fx_out_ok|]. split; [exact fx_b2_ok|]. split; assumption.
+Qed.
+Print Assumptions bin_resave_fixed_point_sample.
+
+(* EXPORT, round 2
+     vis_ok, tbl_inv, enc_tbl_inv     the class table of a DOM with database-unknown properties: every set property of a written
+                                      instance has a column; every column but Name stems from a set property of a written instance of
+                                      the class whose value type is the column's wire type; property lists sorted by name
+     bin_resave_generic_chunks, bin_resave_chunks   the round-1 theorems at the level of the chunk list
+     BinFix: bf_nd_input_ok, bf_nd_names_ok, bf_nd_unknown (the normalised DOM is an encoder input of the same kind),
+             bf2_keys (same columns per class in both tables), bf2_simple (same wire types, simple columns), bf_fix
+     bin_resave_fixed_point           encode_file (decode_file (encode_file out)) = encode_file out for out = decode_file (encode_file dom)
+     example: bin_resave_fixed_point_sample
+   The paragraph "NOT PROVED (bin_resave_fixed_point)" of the round-1 EXPORT comment above is superseded by section (Q). *)
